@@ -2,7 +2,7 @@
    Models: Model/RankChoice.v (rank selection of truncated_svd, executable over Q), Model/RoundReplay.v (round_tt with
    the factorisations replayed; tied to the implementation by harness/props/c04.py), Proofs/RoundAlg.v (sweep step,
    projection error; any commutative ring), Proofs/BudgetR.v (budget arithmetic over R). *)
-From TN Require Import Proofs.RankChoiceP Proofs.RoundAlg Proofs.OrthoP Proofs.BudgetR.
+From TN Require Import Proofs.RankChoiceP Proofs.RoundAlg Proofs.OrthoP Proofs.SandwichP Proofs.BudgetR.
 From Coq Require Import Reals.
 
 (* rank selection: the discarded tail energy is within delta^2 (or nothing is discarded) ... *)
@@ -40,12 +40,42 @@ Theorem C04_norm_is_core_norm : forall (c : score K) (cs : list (score K)), rl c
   sumidx (sshape (c :: cs)) (fun idx => eval (c :: cs) idx * eval (c :: cs) idx) =
   sumn (dm c) (fun i => sumn (rr c) (fun q => sl c i O q * sl c i O q)).
 Proof. exact (norm_first_core K Kth). Qed.
+
+(* --- how the steps compose (TT-SVD analysis) --- *)
+(* in mixed gauge (left-orthonormal prefix, right-orthonormal suffix) the norm of the tensor is the norm of the core
+   in between: the norm of the change made by a step is the Frobenius norm of the change of that core *)
+Theorem C04_sandwich_norm : forall (pre : list (score K)) (c : score K) (suf : list (score K)),
+  lchain K 1 pre -> last_rr 1 pre = rl c -> rchain K (rr c) suf ->
+  sumidx (sshape (pre ++ c :: suf)) (fun idx => eval (pre ++ c :: suf) idx * eval (pre ++ c :: suf) idx) = frob K c.
+Proof. exact (sandwich_norm K Kth). Qed.
+(* a step changes the tensor by the network that holds the difference of the two cores *)
+Theorem C04_core_difference : forall (pre : list (score K)) (a b : score K) suf idxp i idxs v p,
+  length idxp = length pre -> rr a = rr b ->
+  evalv (pre ++ a :: suf) (idxp ++ i :: idxs) v p - evalv (pre ++ b :: suf) (idxp ++ i :: idxs) v p =
+  evalv (pre ++ csub K a b :: suf) (idxp ++ i :: idxs) v p.
+Proof. exact (core_difference K Kth). Qed.
+(* the error of a step (rows orthogonal to the retained rows: E R^T = 0) is orthogonal to every later change, all of
+   which keep the retained core R and the suffix behind it *)
+Theorem C04_orthogonal_steps : forall (X Y : list (score K)) (e r : score K) suf,
+  same_dims K X Y -> dm e = dm r -> rr e = rr r -> rchain K (rr e) suf ->
+  (forall p p', sumn (dm e) (fun i => sumn (rr e) (fun q => sl e i p q * sl r i p' q)) = 0) ->
+  hd1 K (X ++ e :: suf) = 1%nat -> hd1 K (Y ++ r :: suf) = 1%nat ->
+  sumidx (sshape (X ++ e :: suf)) (fun idx => eval (X ++ e :: suf) idx * eval (Y ++ r :: suf) idx) = 0.
+Proof. exact (orthogonal_steps K Kth). Qed.
+(* pairwise orthogonal changes add up in squares *)
+Theorem C04_pythagoras : forall sh (Ds : list (list nat -> K)), pairwise_orth K sh Ds ->
+  sumidx sh (fun idx => sum_fns K Ds idx * sum_fns K Ds idx) = sum_sq K sh Ds.
+Proof. exact (pythagoras K Kth). Qed.
 End C04.
 
 Local Open Scope R_scope.
 (* budgets: N-1 truncations of delta^2 each stay within (eps |t|)^2; N Tucker truncations of (eps/sqrt N |t|)^2 too *)
 Theorem C04_tt_budget : forall (eps nrm : R) (n : nat), INR n * (tt_delta eps nrm n)² <= (eps * nrm)².
 Proof. exact tt_budget. Qed.
+(* ... hence n orthogonal steps of at most delta^2 each stay within the requested relative error *)
+Theorem C04_steps_within_budget : forall (es : list R) (eps nrm : R),
+  Forall (fun e => e <= (tt_delta eps nrm (length es))²) es -> fold_right Rplus 0 es <= (eps * nrm)².
+Proof. exact steps_within_budget. Qed.
 Theorem C04_tucker_budget : forall (eps nrm : R) (n : nat), (0 < n)%nat -> INR n * (eps / sqrt (INR n) * nrm)² = (eps * nrm)².
 Proof. exact tucker_budget. Qed.
 (* round(): the Tucker stage receives (1+eps)/(1+reached)-1 > 0 and the two stages together stay within eps *)
@@ -61,6 +91,11 @@ Print Assumptions C04_rank_bounds.
 Print Assumptions C04_exact_step.
 Print Assumptions C04_step_error.
 Print Assumptions C04_norm_is_core_norm.
+Print Assumptions C04_sandwich_norm.
+Print Assumptions C04_core_difference.
+Print Assumptions C04_orthogonal_steps.
+Print Assumptions C04_pythagoras.
+Print Assumptions C04_steps_within_budget.
 Print Assumptions C04_tt_budget.
 Print Assumptions C04_tucker_budget.
 Print Assumptions C04_round_budget_positive.
